@@ -118,6 +118,29 @@ def decodeIActions (l : List SExp) : List (String × List String × List String)
     | .list [.atom k, .list ws, .list rs] => some (k, atoms ws, atoms rs)
     | _ => none
 
+/-- the loops the real code reported: the names of the `WireLoop` error and the `'x' depends on 'y'` links it printed -/
+def decodeLoops (fields : List SExp) : List (List String × List (String × String)) :=
+  fields.filterMap fun f => match f with
+    | .list (.atom "loop" :: rest) =>
+      let cyc := rest.findSome? fun e => match e with
+        | .list (.atom "cycle" :: ns) => some (atoms ns)
+        | _ => none
+      let links := rest.findSome? fun e => match e with
+        | .list (.atom "links" :: ls) => some (ls.filterMap fun l => match l with
+            | .list [.atom a, .atom b] => some (a, b)
+            | _ => none)
+        | _ => none
+      some (cyc.getD [], links.getD [])
+    | _ => none
+
+/-- a reported loop is real when its names form a cycle of the statements' dependency relation (`Spec.loopReal`, written
+    over the statement list independently of the model; `C10_reported_loop_real` is the model-side theorem) and the
+    printed links are exactly its steps -/
+def loopsVerdict (stmts : List Stmt) (fields : List SExp) : String :=
+  let loops := decodeLoops fields
+  if loops.isEmpty then "" else
+  if loops.all (fun (c, links) => Spec.loopReal stmts c && links == (c.rotateLeft 1).zip c) then " loops-real" else " loops-BOGUS"
+
 def handleProg (fields : List SExp) : String :=
   let fl := decodeFlags (field fields "flags")
   let cls := decodeCls (field fields "cls")
@@ -146,7 +169,7 @@ def handleProg (fields : List SExp) : String :=
       let fs := Spec.faults fl cls.isLower cls.isUpper stmts
       if !fs.isEmpty then
         let names := sortStrings (fs.map fun f => (((repr f.cls).pretty.splitOn ".").getLast!) ++ ":" ++ f.name)
-        s!"M {model} ;; S rej {" ".intercalate names} ;; V {sched}"
+        s!"M {model} ;; S rej {" ".intercalate names} ;; V {sched}{loopsVerdict stmts fields}"
       else
       let d := Spec.design stmts
       let image : List (Nat × Nat) := (pairList (field fields "mem")).filterMap fun p =>
